@@ -12,7 +12,17 @@ def run(lines, out, args):
                                 directlyProvidedBy, implementer, implementer_only)
     from zope.interface.interface import InterfaceClass
     from zope.interface.declarations import _empty, Provides, ClassProvides
+    import array
+    import collections
+    import datetime
+    import decimal
+    import itertools
+    from zope.interface.adapter import AdapterRegistry
+    # types that cannot carry an __implemented__ attribute: their specifications live in a registry of their own
+    BUILTINS = [collections.deque, array.array, datetime.date, datetime.time, datetime.timedelta, decimal.Decimal,
+                itertools.count, bytearray, complex, frozenset, range, memoryview]
     ifs, classes, objs = {}, {}, {}
+    regs = []
     serial = 0
     mod = None
 
@@ -46,6 +56,7 @@ def run(lines, out, args):
                 mod = types.ModuleType("zi_pk_%d" % serial)
                 sys.modules[mod.__name__] = mod
                 ifs, classes, objs = {0: Interface}, {0: object}, {}
+                del regs[:]
                 gc.collect()
             elif f[0] == "iface":
                 def secret(self_or_arg=None):
@@ -60,6 +71,13 @@ def run(lines, out, args):
                 C.__qualname__ = C.__name__
                 setattr(mod, C.__name__, C)
                 classes[int(f[1])] = C
+            elif f[0] == "bclass":
+                classes[int(f[1])] = BUILTINS[(serial + int(f[1])) % len(BUILTINS)]
+            elif f[0] == "clookup":
+                # a lookup cache subscribes to the class's own provides-declaration (and keeps it alive)
+                r = AdapterRegistry()
+                regs.append(r)
+                r.lookup([providedBy(classes[int(f[1])])], Interface)
             elif f[0] == "inst":
                 objs[int(f[1])] = classes[a[0]]()
             elif f[0] == "add":
